@@ -8,8 +8,8 @@ unnamed `ParseResults`, dicts / named `ParseResults`, strings, numbers, None).
 `container[key] = null`.  The model records the same information in the marker itself:
 `J.marker true` sits at a position for which a slot was recorded, `J.marker false` at one
 that the later assignment does not reach (the real code then leaks the `Call` object).
-The one case in which the assignment creates a NEW key (`kwargs[op] = null` although the
-marker is stored elsewhere) is modelled by adding that key at scrub time.
+The one case in which the assignment creates a NEW key (`kwargs[op] = null` under `normal_op`,
+where the marker itself is stored in `args`) is modelled by adding that key at scrub time.
 -/
 namespace MoSql
 
@@ -68,6 +68,13 @@ def isEmptyDict : J → Bool
   | .obj [] => true
   | _ => false
 
+/-- `kwargs[k] = v` in `simple_op`.  If `kwargs[k]` already held a recorded NULL slot, the later
+`o[n] = null` of `_parse` overwrites whatever is stored now: the slot wins. -/
+def setKeySlot (kw : List (String × J)) (k : String) (v : J) : List (String × J) :=
+  match J.getKey kw k with
+  | some (.marker true) => kw
+  | _ => J.setKey kw k v
+
 /-- `scrub_op(fmap.get(op, op), args, kwargs)` together with the slot `(kwargs, op)` that
 `scrub` records when `args is SQL_NULL` -/
 def applyOp (c : Cfg) (op : String) (a : J) (kw : List (String × J)) : J :=
@@ -75,19 +82,19 @@ def applyOp (c : Cfg) (op : String) (a : J) (kw : List (String × J)) : J :=
   match c.mode with
   | .simple =>
     match a with
-    | .marker _ =>
-      if name == op then .obj (J.setKey kw name (.marker true))
-      else .obj (J.setKey (J.setKey kw name (.marker false)) op (.marker true))
-    | .null => .obj (J.setKey kw name (.obj []))
-    | _ => .obj (J.setKey kw name a)
+    | .marker _ => .obj (J.setKey kw name (.marker true))
+    | .null => .obj (setKeySlot kw name (.obj []))
+    | _ => .obj (setKeySlot kw name a)
   | .normal =>
     let args := listwrap a
-    let kw' := if a.isMarker then (if kw.isEmpty then kw else J.setKey kw op (.marker true)) else kw
+    let kw' := if a.isMarker then (if kw.isEmpty then kw else J.setKey kw name (.marker true)) else kw
     let args' := if a.isMarker then [J.marker false] else args
+    -- `if args and (not isinstance(args[0], dict) or args[0])`: `args` is a mo_dots FlatList whose
+    -- `__getitem__` wraps dicts into `Data` (not a `dict`), so the test reduces to `if args`
     let withArgs : List (String × J) :=
       match args' with
       | [] => []
-      | x :: _ => if isEmptyDict x then [] else [("args", .arr args')]
+      | _ :: _ => [("args", .arr args')]
     let withKw : List (String × J) := if kw'.isEmpty then [] else [("kwargs", .obj kw')]
     .obj ([("op", .str name)] ++ withArgs ++ withKw)
 
@@ -134,6 +141,22 @@ def sqlNullNode : J := .obj [("null", .obj [])]
 
 /-- `scrub` + slot substitution, as `_parse` does for one statement -/
 def run (c : Cfg) (x : J) (r : Raw) : J := finalize x (scrub c r)
+
+/-- Python truthiness of a result (`if not output: continue` in `_parse`) -/
+def falsy : J → Bool
+  | .null => true
+  | .bool b => !b
+  | .int i => i == 0
+  | .flt s => s == "0.0" || s == "-0.0"
+  | .str s => s == ""
+  | .arr xs => xs.isEmpty
+  | .obj kvs => kvs.isEmpty
+  | _ => false
+
+/-- one statement through `_parse`: scrub, substitute, drop an empty result -/
+def parse1 (c : Cfg) (x : J) (r : Raw) : J :=
+  let out := scrub c r
+  if falsy out then .null else finalize x out
 
 end Scrub
 end MoSql
